@@ -662,7 +662,7 @@ func (c *Case) genStructDocE(r *rand.Rand, t *Type, dst reflect.Value, doc map[s
 		case f.O.Dep != "":
 			on = present[f.O.Dep]
 		case f.O.Optional:
-			on = r.Intn(2) == 0
+			on = r.Intn(2) == 0 || (c.Shape.ConstrainedPresent && (f.O.Range != nil || len(f.O.Options) > 0))
 		case f.O.HasDefault:
 			// inside an optional embedded struct the library wants all-or-nothing of the non-optional fields
 			on = optEmb || r.Intn(5) < 2
